@@ -146,18 +146,15 @@ class extract_visitor(NodeVisitor):
 
     def visit_While(self, node):
         # type: (ast.While) -> None
+        self.visit(node.test)
         cur = self.flow
 
-        # the test is evaluated before every iteration: it sees the body's bindings too
-        test_start = self.make_flow('while-test', [cur])
-        test = self.visit_in_flow(node.test, test_start)
-
-        body_start = self.make_flow('while', [test])
+        body_start = self.make_flow('while', [cur])
         body = self.visit_in_flow(node.body, body_start)
-        test_start.loop(body)
+        body_start.loop(body)
 
         orelse = self.visit_in_flow(node.orelse,
-                                    self.make_flow('while-else', [test]))
+                                    self.make_flow('while-else', [cur, body]))
 
         self.flow = self.make_flow('join', [orelse])
         self.flow.scope.flow = self.flow
